@@ -39,6 +39,10 @@ pub struct Scn {
     /// a <defaults> block ahead of the siblings adds offsets to rects and circles
     #[serde(default)]
     pub defaults: bool,
+    /// also feed the orders to ONE `svgdx --watch` process as successive saves of one file,
+    /// with a save in between from which a referenced node is missing
+    #[serde(default)]
+    pub watch: bool,
     /// configuration (limits at or below their defaults but ample for the document;
     /// none of it may change geometry or make resolution depend on sibling order)
     #[serde(default)]
@@ -787,6 +791,7 @@ impl Engine for C10 {
             orders: None,
             exhaustive_upto: if tier == Tier::Thorough { 6 } else { 5 },
             defaults: index % 7 == 3,
+            watch: index % 16 == 6 || (tier == Tier::Thorough && index % 64 == 22),
             cfg: if index % 3 == 1 {
                 let mut c = Cfg::default();
                 c.add_auto_styles = false;
@@ -805,7 +810,7 @@ impl Engine for C10 {
         .unwrap()
     }
 
-    fn execute(&self, scenario: &Value, _env: &WorkerEnv) -> RunResult {
+    fn execute(&self, scenario: &Value, env: &WorkerEnv) -> RunResult {
         let mut res = RunResult::default();
         let scn: Scn = match serde_json::from_value(scenario.clone()) {
             Ok(s) => s,
@@ -837,6 +842,59 @@ impl Engine for C10 {
                 return res;
             }
         };
+        if scn.watch && scn.unsat.is_none() && scn.nodes.len() >= 2 {
+            // identity order; the same without node 0 (somebody refers to it: must fail, and
+            // must not be answered from what the process remembers of the earlier save);
+            // reversed order. Each save is judged against a one-shot transform of itself.
+            let n = scn.nodes.len();
+            let ident: Vec<usize> = (0..n).collect();
+            let without0: Vec<usize> = (1..n).collect();
+            let rev: Vec<usize> = (0..n).rev().collect();
+            let mut saves: Vec<Vec<u8>> = [ident, without0, rev].iter().map(|o| render_doc(&scn, o).into_bytes()).collect();
+            let width = saves.iter().map(|d| d.len()).max().unwrap_or(0) + 1;
+            for d in saves.iter_mut() {
+                while d.len() < width {
+                    d.push(b'\n');
+                }
+            }
+            let mut wcfg = scn.cfg.clone().unwrap_or_default();
+            wcfg.add_auto_styles = false;
+            let (s2, c2) = (saves.clone(), wcfg.clone());
+            let expect = on_thread(STACK_MAIN, move || s2.iter().map(|d| fe_stream_plain(d, &c2).0).collect::<Vec<_>>()).unwrap_or_default();
+            let dir = env.scratch.join("c10-watch");
+            match watch_session(env, wcfg.to_cli_args(), &dir, &saves, None, 1_700_000_000_000_000_000, std::time::Duration::from_secs(15)) {
+                Err(e) => {
+                    res.harness_error = Some(format!("watch session: {e}"));
+                    return res;
+                }
+                Ok(obs) => {
+                    res.stats.probe("orders_as_successive_saves_of_one_watched_file");
+                    let mut before: Option<Vec<u8>> = None;
+                    for (i, (o, e)) in obs.iter().zip(expect.iter()).enumerate() {
+                        res.stats.evaluations += 1;
+                        let bad = match e {
+                            Outcome::Ok(gb) if !gb.is_empty() => {
+                                let same = o.out.as_ref().map(|f| same_outcome_modulo_local_id(&Outcome::Ok(f.clone()), e, wants_local_styles(&saves[i], &wcfg))).unwrap_or(false);
+                                // (an unchanged file is only wrong if the save should have changed it)
+                                if same || (!o.changed && !o.failure_reported && before.as_deref() == Some(gb.as_slice())) {
+                                    None
+                                } else {
+                                    Some(format!("save {i} renders (one-shot) to {} bytes, the watched output holds {:?} bytes", gb.len(), o.out.as_ref().map(|b| b.len())))
+                                }
+                            }
+                            Outcome::Err(_) if o.out != before => Some(format!("save {i} cannot be transformed on its own (a reference to a node it no longer contains), but the watching process rewrote the output")),
+                            _ => None,
+                        };
+                        if let Some(detail) = bad {
+                            res.violation("forward-ref/watch-session", "c10:watch:save-differs-from-one-shot", format!("svgdx --watch over 3 saves (all nodes; node 0 removed; reversed): {detail}"));
+                            break;
+                        }
+                        before = o.out.clone();
+                    }
+                }
+            }
+            let _ = std::fs::remove_dir_all(&dir);
+        }
         let kinds: Vec<String> = scn.nodes.iter().map(|n| n.kind.clone()).collect();
         res.stats.fingerprint = rng::hash_str(&format!("{:?}{:?}", kinds, scn.nodes.iter().map(|n| n.deps.clone()).collect::<Vec<_>>()));
         let base = outs[0].1.clone();
